@@ -44,6 +44,7 @@ class Schema:
         self.variant = "clean"
         self.edges = None      # known derivation graph: list of (child key, base key), or None
         self.auto = []         # parts that the auto-loaded run leaves to Process to load from the search path
+        self.late = []         # submodules that the history run parses only after a first Process
 
     def find(self, sub, name):
         for m in self.mods:
@@ -139,6 +140,8 @@ def gen_schema(rnd):
         sc = gen_schema1(rnd)
         if consistent(sc):
             sc.auto = choose_auto(rnd, sc) if rnd.random() < 0.7 else []
+            subs = [m for m in sc.mods if m.sub]
+            sc.late = rnd.sample(subs, rnd.randint(1, len(subs))) if subs and rnd.random() < 0.7 else []
             return sc
 
 
@@ -332,12 +335,17 @@ def yang_text(m):
     return "\n".join(out) + "\n"
 
 
-def go_line(sc, auto=False):
+def go_line(sc, auto=False, late=False):
     """auto: the parts in sc.auto are put on the search path (op D) instead of being parsed (op L); Process
-    loads them itself when an import or include statement names them"""
+    loads them itself when an import or include statement names them.
+    late: the submodules in sc.late are parsed only after a first Process; the dump compared is that of a second
+    Process (the harness dumps after every P; the last dump is read)"""
     on_path = sc.auto if auto else []
+    held = sc.late if late else []
     ops = ["D%d" % i for i, m in enumerate(sc.mods) if any(m is a for a in on_path)] + \
-          ["L%d" % i for i, m in enumerate(sc.mods) if not any(m is a for a in on_path)]
+          ["L%d" % i for i, m in enumerate(sc.mods) if not any(m is a for a in on_path + held)]
+    if held:
+        ops += ["P"] + ["L%d" % i for i, m in enumerate(sc.mods) if any(m is a for a in held)]
     toks = ["process", "-", ",".join(ops + ["P"]), str(len(sc.mods))]
     for m in sc.mods:
         toks += [hx(m.name + ".yang"), hx(yang_text(m))]
@@ -422,7 +430,7 @@ def parse_go(sc, line):
     o = json.loads(line)
     if "err" in o["loads"]:
         return "broken:parse-failed", None, None
-    run = o["runs"][0]
+    run = o["runs"][-1]
     if run["errors"]:
         return "err", None, None
     vals, leaves = {}, {}
@@ -469,20 +477,23 @@ def expected(sc):
     return exp
 
 
-def judge(sc, go3, mls, auto=None):
+def judge(sc, go3, mls, auto=None, late=None):
     """returns None or a description of the disagreement"""
     why = judge_explicit(sc, go3, mls)
-    if why or auto is None:
+    if why:
         return why
-    a, g = parse_go(sc, auto), parse_go(sc, go3[0])
-    if a[0].startswith("broken"):
-        return "auto-loaded run: implementation crashed, did not finish, or the harness is broken: " + a[0][7:]
-    if a[0] != g[0]:
-        return "error presence differs when %s are loaded by Process from the search path: %s, all parsed: %s" % (
-            [m.name for m in sc.auto], a[0], g[0])
-    if json.dumps(a, sort_keys=True) != json.dumps(g, sort_keys=True):
-        return "Values / identityref bases differ when %s are loaded by Process from the search path: %s, all parsed: %s" % (
-            [m.name for m in sc.auto], a[1:], g[1:])
+    g = parse_go(sc, go3[0])
+    for other, what in ((auto, "%s are loaded by Process from the search path" % [m.name for m in sc.auto]),
+                        (late, "submodules %s are parsed between a first and a second Process" % [m.name for m in sc.late])):
+        if other is None:
+            continue
+        a = parse_go(sc, other)
+        if a[0].startswith("broken"):
+            return "when %s: implementation crashed, did not finish, or the harness is broken: %s" % (what, a[0][7:])
+        if a[0] != g[0]:
+            return "error presence differs when %s: %s, all parsed before one Process: %s" % (what, a[0], g[0])
+        if json.dumps(a, sort_keys=True) != json.dumps(g, sort_keys=True):
+            return "Values / identityref bases differ when %s: %s, all parsed before one Process: %s" % (what, a[1:], g[1:])
     return None
 
 
@@ -570,6 +581,19 @@ def fixed_schemas():
     sc = mk("clean", a, s1, s2, b)
     sc.edges = [("a:l", "a:top"), ("a:r", "a:top"), ("a:bot", "a:l"), ("a:bot", "a:r"), ("b:bot", "a:bot"),
                 ("b:l", "a:top")]
+    sc.late = [s1, s2]
+    out.append(sc)
+    # the module is processed before the submodule it includes is parsed; then again
+    m = Mod("m", False, "m")
+    sub = Mod("sub", True, "m", "m")
+    m.includes = ["sub"]
+    m.idents = [["root", []], ["kid", ["root"]], ["grandkid", ["kid"]], ["uses-sub", ["sub-root"]]]
+    m.leaves = [("l0", "ref", "root")]
+    sub.idents = [["sub-root", []], ["from-sub", ["sub-root"]], ["kid2", ["m:root"]]]
+    sc = mk("clean", m, sub)
+    sc.edges = [("m:kid", "m:root"), ("m:grandkid", "m:kid"), ("m:uses-sub", "m:sub-root"), ("m:from-sub", "m:sub-root"),
+                ("m:kid2", "m:root")]
+    sc.late = [sub]
     out.append(sc)
     # a parsed module derives from, and refers to, identities of a module only Process loads; and a chain of two
     root = Mod("root", False, "r")
@@ -671,19 +695,20 @@ def run_all(schemas, timeout=900):
     return [[g[i] for g in go] for i in range(len(schemas))], [ml[i * n:(i + 1) * n] for i in range(len(schemas))]
 
 
-def run_auto(schemas, timeout=900):
-    """the auto-loaded run of every schema that has one (None otherwise)"""
-    idx = [i for i, sc in enumerate(schemas) if sc.auto]
+def run_family(schemas, family, timeout=900):
+    """the auto-loaded / late-submodule run of every schema that has one (None otherwise)"""
+    idx = [i for i, sc in enumerate(schemas) if getattr(sc, family)]
+    kw = {family: True}
     tmp = tempfile.mkdtemp(prefix="c11cwd")
     try:
         try:
-            out = lib.run_go([go_line(schemas[i], auto=True) for i in idx], cwd=tmp, timeout=timeout)
+            out = lib.run_go([go_line(schemas[i], **kw) for i in idx], cwd=tmp, timeout=timeout)
         except subprocess.TimeoutExpired:
             out = ["TIMEOUT"] * len(idx)
         for j, o in enumerate(out):     # see go_runs: find the case that really crashes
             if o.startswith("CRASH") or o == "NOT-RUN":
                 try:
-                    out[j] = lib.run_go([go_line(schemas[idx[j]], auto=True)], cwd=tmp, shards=1, timeout=120)[0]
+                    out[j] = lib.run_go([go_line(schemas[idx[j]], **kw)], cwd=tmp, shards=1, timeout=120)[0]
                 except subprocess.TimeoutExpired:
                     out[j] = "TIMEOUT"
     finally:
@@ -703,6 +728,7 @@ def gen(tier, seed):
 def replay_of(sc):
     return dict(kind="correspondence", variant=sc.variant, go_case=go_line(sc),
                 auto_case=go_line(sc, auto=True) if sc.auto else None, auto_parts=[m.name for m in sc.auto],
+                late_case=go_line(sc, late=True) if sc.late else None, late_parts=[m.name for m in sc.late],
                 ml_cases=[ml_line(sc, o) for o in ORACLES],
                 texts={m.name + (".sub" if m.sub else "") + ".yang": yang_text(m) for m in sc.mods},
                 conv=dict(modules=[m.name for m in sc.mods if not m.sub]))
@@ -711,14 +737,16 @@ def replay_of(sc):
 def run(res, tier, seed, proof):
     schemas = gen(tier, seed)
     go, ml = run_all(schemas, timeout=240 if tier == "quick" else 1500)
-    auto = run_auto(schemas, timeout=240 if tier == "quick" else 1500)
-    hist = dict(auto_loaded=sum(1 for a in auto if a is not None), clean=0, cyclic=0, dangling=0, free=0, accepted=0, rejected=0, with_submodule=0, with_leaf=0,
+    auto = run_family(schemas, "auto", timeout=240 if tier == "quick" else 1500)
+    late = run_family(schemas, "late", timeout=240 if tier == "quick" else 1500)
+    hist = dict(auto_loaded=sum(1 for a in auto if a is not None), late_submodules=sum(1 for a in late if a is not None),
+                clean=0, cyclic=0, dangling=0, free=0, accepted=0, rejected=0, with_submodule=0, with_leaf=0,
                 max_values=0, identities=0)
     nontrivial = set()
     mism = 0
-    for sc, g3, ms, au in zip(schemas, go, ml, auto):
+    for sc, g3, ms, au, la in zip(schemas, go, ml, auto, late):
         hist[sc.variant] += 1
-        why = judge(sc, g3, ms, au)
+        why = judge(sc, g3, ms, au, la)
         if why:
             mism += 1
             if mism <= 3:
@@ -738,7 +766,7 @@ def run(res, tier, seed, proof):
             nontrivial.add(go_line(sc))
     mid = len(schemas) // 2
     cov = dict(
-        evaluations=len(schemas) * (GO_RUNS + len(ORACLES)) + hist["auto_loaded"], schemas=len(schemas), distinct_nontrivial=len(nontrivial),
+        evaluations=len(schemas) * (GO_RUNS + len(ORACLES)) + hist["auto_loaded"] + hist["late_submodules"], schemas=len(schemas), distinct_nontrivial=len(nontrivial),
         rule="random schemas: 1-3 modules, 0-3 submodules (includes form a DAG, nested includes, submodules nobody "
              "includes), 0-12 identities with equal names in different modules, several bases per identity (DAG, "
              "diamonds, repeated base statements), arbitrary and clashing prefixes, identityref leaves directly and "
@@ -747,7 +775,9 @@ def run(res, tier, seed, proof):
              "each schema: %d implementation runs, %d model runs with different iteration oracles; family auto-loaded: "
              "for most schemas one more implementation run in which a subset of the imported modules / included "
              "submodules is not parsed but put on the search path, so that Process loads it itself -- the result "
-             "must equal the all-parsed run (and the model, which does not care how modules arrive); "
+             "must equal the all-parsed run (and the model, which does not care how modules arrive); family late "
+             "submodules (history): a subset of the submodules is parsed only after a first Process, and the dump of a "
+             "second Process must equal the run in which everything is parsed before one Process; "
              "non-trivial = rejected, or some identity with at least two derived identities" % (GO_RUNS, len(ORACLES)),
         exhaustive=False, mismatches=mism, distribution=hist,
         samples=[yang_text(m) for m in schemas[0].mods][:2] + [yang_text(m)[:400] for m in schemas[mid].mods][:2],
@@ -771,6 +801,9 @@ def replay(rep, res):
         if rep.get("auto_case"):
             print("(last impl line: %s not parsed but loaded by Process from the search path)" % rep.get("auto_parts"))
             gos.append(lib.run_go([rep["auto_case"]], cwd=tmp)[0])
+        if rep.get("late_case"):
+            print("(last impl line: submodules %s parsed after a first Process; dump of the second Process)" % rep.get("late_parts"))
+            gos.append(lib.run_go([rep["late_case"]], cwd=tmp)[0])
     finally:
         shutil.rmtree(tmp, ignore_errors=True)
     mls = lib.run_ml(rep["ml_cases"])
@@ -791,7 +824,7 @@ def replay(rep, res):
             print("impl :", g[:300])
             obs.append(("broken",))
             continue
-        run = o["runs"][0]
+        run = o["runs"][-1]
         if run["errors"]:
             print("impl : err", run["errors"][:3])
             obs.append(("err",))
